@@ -32,14 +32,19 @@ MANIFEST = {
             "(compatible_iff_expected_success); every expected parameter lies in both records (expected_params_in_both); the "
             "expected version is the highest shared one (expected_version_highest); failure only if disjoint "
             "(failure_only_if_disjoint, with reason-specific forms failure_noCommonVersion / _noCommonSuite / _noUsableSuite); "
-            "ALPN choice lies in both lists; client-certificate and resumption expectations. Tie: every combination is executed "
+            "ALPN choice lies in both lists; client-certificate, client-signature and resumption expectations. Tie: every combination is executed "
             "between a live tlslite-ng TLSConnection and an in-process OpenSSL 3.0 SSLObject (memory BIOs), both role "
             "assignments; outcome, version, suite, group (from the wire), ALPN, resumption status and payloads are compared with "
             "the Lean expectation and with each other. The OpenSSL capability record is validated in the same run (ClientHello "
-            "probe, OpenSSL<->OpenSSL control handshake).",
+            "probe, OpenSSL<->OpenSSL control handshake). Leading-zero cases of every key exchange are steered rather than left "
+            "to chance (tlslite's random private value is redrawn until its FFDHE public value / the (EC)DHE shared secret on each "
+            "curve / the RSA ciphertext starts with 0x00, OpenSSL as peer). SRP, which the stdlib cannot reach, is run against an "
+            "independent RFC 5054 reference peer (validated against RFC 5054 appendix B in every run) in both roles with A, B, u "
+            "and the premaster secret steered to leading zero bytes.",
     "note": "OpenSSL's behaviour is OBSERVED, not proved: no model of OpenSSL exists; the theorems are about the expectation "
             "function only. Not reachable through the stdlib ssl module and therefore not covered: SSLv3, 3DES/RC4/NULL "
-            "(not in this OpenSSL build's cipher list), SRP, TLS 1.3 CCM suites (stdlib cannot enable them), record_size_limit "
+            "(not in this OpenSSL build's cipher list), SRP against OpenSSL (reference peer instead), TLS <= 1.2 PSK suites (tlslite has none) "
+            "and TLS 1.3 external PSK (no stdlib API before Python 3.13), TLS 1.3 CCM suites (stdlib cannot enable them), record_size_limit "
             "(OpenSSL 3.0 does not implement RFC 8449; added in 3.2), 0-RTT, post-handshake auth, renegotiation, KeyUpdate.",
     "technique": "Lean 4 theorems over an expectation model; live differential interop against OpenSSL with control handshakes",
 }
@@ -835,6 +840,9 @@ def tl_sigs(cfg):
 def tl_caps(cfg):
     """what a tlslite endpoint with this configuration is documented to offer / accept"""
     vs = [code for v, code in sorted(VERS.items()) if tuple(cfg["minv"]) <= v <= tuple(cfg["maxv"])]
+    if cfg["anon"] and cfg["role"] == "client":
+        # handshakeClientAnonymous: anonymous key exchange does not exist in TLS 1.3, the client does not offer it
+        vs = [v for v in vs if v <= 0x0303]
     ciphers = cfg["ciphers"] if cfg["ciphers"] is not None else TL_DEFAULT_CIPHERS
     macs = cfg["macs"] if cfg["macs"] is not None else TL_DEFAULT_MACS
     kxs = cfg["kx"] if cfg["kx"] is not None else (TL_DEFAULT_KX + (["ecdh_anon", "dh_anon"] if cfg["anon"] else []))
@@ -2145,7 +2153,8 @@ def run(ctx):
                 "version x role; bulk transfer 0/1/100/16384/16385/50000 per record protection; groups incl. FFDHE and "
                 "HelloRetryRequest; key types; client auth (certificate kind x signature-hash restriction); ALPN; session-ID / ticket / PSK resumption incl. declined; "
                 "enumerated products resumption x HelloRetryRequest x client auth x ALPN; "
-                "disjoint configurations; one-sided version pins; random points of the product. distinct = distinct "
+                "disjoint configurations; one-sided version pins; steered leading-zero key exchanges; SRP reference-peer cases; "
+                "random points of the product. distinct = distinct "
                 "pair of configurations + mechanism + payload plan; non-trivial = a live handshake was attempted")
     ctx.assumptions = ["OpenSSL 3.0 (stdlib ssl, in-memory BIOs) is the independent implementation; its behaviour is observed, not proved",
                        "the OpenSSL capability record (harness/props/c07.py:ossl_caps) is hand-written; it is validated in each run "
